@@ -16,6 +16,7 @@ type c14Case struct {
 	Graph       *m.Graph      `json:"graph"`
 	Maps        *m.SourceMaps `json:"source_maps"`
 	Opts        m.LDOpts      `json:"ld_opts"`
+	Route       int           `json:"route,omitempty"` // entry point producing both reports (see validateVia)
 }
 
 func genMagnitude(t *rapid.T, label string) int64 {
@@ -119,6 +120,7 @@ func genC14(t *rapid.T) c14Case {
 	if rapid.IntRange(0, 11).Draw(t, "padded") == 0 {
 		c.Opts.PadBytes = rapid.SampledFrom([]int{70_000, 600_000, 1_200_000}).Draw(t, "padBytes")
 	}
+	c.Route = rapid.SampledFrom([]int{0, 0, 1}).Draw(t, "route") // the two reports are compared whole: only the routes with a fixed clock
 	return c
 }
 
@@ -283,8 +285,8 @@ func hasLocationKey(v any) bool {
 func decideC14(c c14Case) ev.Verdict {
 	with := c.Maps.Attach(c.Graph).JSONLD(c.Opts)
 	without := c.Graph.JSONLD(c.Opts)
-	rw := validateFixed(c.ProfileText, with)
-	ro := validateFixed(c.ProfileText, without)
+	rw := validateVia(c.Route, c.ProfileText, with)
+	ro := validateVia(c.Route, c.ProfileText, without)
 	if rw.failed() || ro.failed() {
 		return ev.Violation("c14-call-failed:"+classifyErr(rw), "validation failed: with maps: %s / without: %s\n%s", trunc(rw.errString(), 300), trunc(ro.errString(), 300), c.ProfileText)
 	}
